@@ -1,2 +1,179 @@
--- placeholder driver (model for C14 not built yet)
-def main : IO Unit := pure ()
+/-
+  Driver for the name-server model (C14).  One history per line:
+
+    hist <backend mem|sql|spec> <baduris> <retable> <op> <op> …     →  one result token per op
+    like <pattern> <name>                                          →  1 | 0     (sqlite LIKE model)
+
+  str      : comma separated code points, "-" = empty;  optional str: "~" = None
+  baduris  : "~" or strs joined by "/"  (texts core.URI rejects; everything else is accepted)
+  retable  : "~" or entries joined by ";", entry = <regex>=<compiles 0|1>=<names it matches joined by "/" | ~>
+  meta arg : "~" None | "S0" empty str | "S1" non-empty str | "L"+tags joined by "/"   ("L" = empty list)
+  op       : count | look:<name>:<wm> | reg:<name>:<uri>:<safe>:<meta> | setm:<name>:<meta>
+           | rm:<optname>:<optprefix>:<optregex> | list:<optprefix>:<optregex>:<wm> | yp:<all>:<any>:<wm> | reopen
+             optionally followed by "@k": the k-th (0-based) storage statement of this operation raises
+  result   : N | n<k> | u<uri> | m<uri>|<tags> | d<entries> | E<kind>  followed by "#<statements executed>"
+             entries sorted by name, joined by ";", each name>uri>tags ; tags sorted, joined by "/", "~" = none
+-/
+import PyroModel.NameServer
+import PyroModel.Sql
+import Driver.Util
+
+open Pyro.NS Pyro.NS.Sql Driver
+
+def strLe : Str → Str → Bool
+  | [], _ => true
+  | _ :: _, [] => false
+  | a :: as, b :: bs => a < b || (a == b && strLe as bs)
+
+def pStr (s : String) : Option Str := parseNatList s
+
+def pOptStr (s : String) : Option (Option Str) :=
+  if s == "~" then some none else (pStr s).map some
+
+def pStrs (s : String) : Option (List Str) :=
+  if s == "~" then some [] else (s.splitOn "/").mapM pStr
+
+def pMeta (s : String) : Option MetaArg :=
+  if s == "~" then some .none
+  else if s == "S0" then some (.str false)
+  else if s == "S1" then some (.str true)
+  else if s == "L" then some (.list [])
+  else if s.startsWith "L" then ((s.drop 1).toString.splitOn "/").mapM pStr |>.map .list
+  else none
+
+def pBool (s : String) : Option Bool :=
+  if s == "1" then some true else if s == "0" then some false else none
+
+def pOp (s : String) : Option Op :=
+  match s.splitOn ":" with
+  | ["count"] => some .count
+  | ["look", n, wm] => do some (.lookup (← pStr n) (← pBool wm))
+  | ["reg", n, u, safe, md] => do some (.register (← pStr n) (← pStr u) (← pBool safe) (← pMeta md))
+  | ["setm", n, md] => do some (.setMeta (← pStr n) (← pMeta md))
+  | ["rm", n, p, r] => do some (.remove (← pOptStr n) (← pOptStr p) (← pOptStr r))
+  | ["list", p, r, wm] => do some (.list (← pOptStr p) (← pOptStr r) (← pBool wm))
+  | ["yp", a, b, wm] => do some (.yplookup (← pMeta a) (← pMeta b) (← pBool wm))
+  | _ => none
+
+structure ReEntry where
+  pat : Str
+  ok : Bool
+  names : List Str
+
+def pReEntry (s : String) : Option ReEntry :=
+  match s.splitOn "=" with
+  | [p, ok, ns] => do some ⟨← pStr p, ← pBool ok, ← pStrs ns⟩
+  | _ => none
+
+def pReTable (s : String) : Option (List ReEntry) :=
+  if s == "~" then some [] else (s.splitOn ";").mapM pReEntry
+
+def mkEnv (bad : List Str) (tab : List ReEntry) : Env where
+  uriOk u := !bad.contains u
+  reOk r := match tab.find? (·.pat == r) with
+    | some e => e.ok
+    | none => false
+  reMatch r n := match tab.find? (·.pat == r) with
+    | some e => e.names.contains n
+    | none => false
+
+def opRegexKnown (tab : List ReEntry) : Op → Bool
+  | .remove _ _ (some r) => r.isEmpty || tab.any (·.pat == r)
+  | .list _ (some r) _ => r.isEmpty || tab.any (·.pat == r)
+  | _ => true
+
+def showTags (t : Tags) : String :=
+  if t.isEmpty then "~" else "/".intercalate ((t.mergeSort strLe).map natListToString)
+
+def showEntry (e : Entry) : String :=
+  natListToString e.name ++ ">" ++ natListToString e.uri ++ ">" ++ showTags e.tags
+
+def showErr : Err → String
+  | .naming => "naming" | .type => "type" | .value => "value" | .pyro => "pyro" | .key => "key" | .storage => "storage"
+
+def showRes : Res → String
+  | .none => "N"
+  | .num n => s!"n{n}"
+  | .uri u => "u" ++ natListToString u
+  | .uriMeta u t => "m" ++ natListToString u ++ "|" ++ showTags t
+  | .listing l =>
+    if l.isEmpty then "d~"
+    else "d" ++ ";".intercalate ((l.mergeSort fun a b => strLe a.name b.name).map showEntry)
+  | .err e => "E" ++ showErr e
+
+def bigFuel : Nat := 1000000
+
+/-- split "op@k" -/
+def splitFault (tok : String) : Option (String × Option Nat) :=
+  match tok.splitOn "@" with
+  | [o] => some (o, none)
+  | [o, k] => k.toNat?.map fun k => (o, some k)
+  | _ => none
+
+def runMem (env : Env) (tab : List ReEntry) : List String → MemDb → List String → List String
+  | [], _, acc => acc.reverse
+  | tok :: rest, s, acc =>
+    match splitFault tok with
+    | some (o, none) =>
+      match pOp o with
+      | some op =>
+        if opRegexKnown tab op then
+          let (r, s') := nsStep memStore env op s
+          runMem env tab rest s' ((showRes r ++ "#0") :: acc)
+        else ["bad-regex"]
+      | none => ["bad-op"]
+    | _ => ["bad-op"]
+
+def runSpec (env : Env) (tab : List ReEntry) : List String → Spec → List String → List String
+  | [], _, acc => acc.reverse
+  | tok :: rest, s, acc =>
+    match splitFault tok with
+    | some (o, none) =>
+      match pOp o with
+      | some op =>
+        if opRegexKnown tab op then
+          let (r, s') := specStep env op s
+          runSpec env tab rest s' ((showRes r ++ "#0") :: acc)
+        else ["bad-regex"]
+      | none => ["bad-op"]
+    | _ => ["bad-op"]
+
+def runSql (env : Env) (tab : List ReEntry) : List String → SqlState → List String → List String
+  | [], _, acc => acc.reverse
+  | tok :: rest, s, acc =>
+    match splitFault tok with
+    | some (o, k) =>
+      if o == "reopen" then runSql env tab rest (reopen s) ("R" :: acc)
+      else
+        match pOp o with
+        | some op =>
+          if opRegexKnown tab op then
+            let f0 := k.getD bigFuel
+            let (r, s') := nsStep sqlStore env op ⟨s.db, some f0⟩
+            let out := match r with
+              | .err .storage => showRes r
+              | _ => showRes r ++ s!"#{f0 - s'.fuel.getD 0}"
+            runSql env tab rest ⟨s'.db, none⟩ (out :: acc)
+          else ["bad-regex"]
+        | none => ["bad-op"]
+    | none => ["bad-op"]
+
+def step : List String → String
+  | "hist" :: backend :: bad :: tab :: ops =>
+    match pStrs bad, pReTable tab with
+    | some bad, some tab =>
+      let env := mkEnv bad tab
+      let out :=
+        if backend == "mem" then runMem env tab ops [] []
+        else if backend == "sql" then runSql env tab ops ⟨Db.empty, none⟩ []
+        else if backend == "spec" then runSpec env tab ops [] []
+        else ["bad-backend"]
+      if out.isEmpty then "-" else " ".intercalate out
+    | _, _ => "bad-env"
+  | ["like", p, n] =>
+    match pStr p, pStr n with
+    | some p, some n => if likeMatch p n then "1" else "0"
+    | _, _ => "bad-op"
+  | _ => "bad-op"
+
+def main : IO Unit := runDriver step
